@@ -49,6 +49,9 @@ type C02Case struct {
 	// to the first: two selections are resolved by one Querier.
 	Sel2    []gen.Matcher `json:"sel2,omitempty"`
 	UseSel2 bool          `json:"use_sel2,omitempty"`
+	// RawSel writes the selector values as raw `...` strings where that is possible: what is
+	// between the backquotes is the value, carriage returns and quotes included.
+	RawSel bool `json:"raw_sel,omitempty"`
 }
 
 // c02Labels is the reference label derivation of a container: the documented built-in labels
@@ -76,7 +79,11 @@ func c02Labels(c C02Ctr) map[string]string {
 }
 
 func c02Query(c C02Case) string {
-	sel := gen.PrintLog(&gen.LogQuery{Sel: c.Sel}, gen.Plain{})
+	var layout gen.Layout = gen.Plain{}
+	if c.RawSel {
+		layout = gen.PlainRaw{}
+	}
+	sel := gen.PrintLog(&gen.LogQuery{Sel: c.Sel}, layout)
 	if !c.Metric {
 		switch c.Stage {
 		case "logfmt":
@@ -96,7 +103,7 @@ func c02Query(c C02Case) string {
 		return q + ")"
 	}
 	if c.UseSel2 {
-		return rng(sel) + " + " + rng(gen.PrintLog(&gen.LogQuery{Sel: c.Sel2}, gen.Plain{}))
+		return rng(sel) + " + " + rng(gen.PrintLog(&gen.LogQuery{Sel: c.Sel2}, layout))
 	}
 	return rng(sel)
 }
@@ -334,7 +341,9 @@ func c02Gen(t *rapid.T) C02Case {
 		"id", "name", "image", "status", "label", "ancestor",
 		// keys named like the labels the engine derives from a record itself
 		"msg", "level", "trace_id", "span_id", "severity"}
-	dockerVals := []string{"web", "db", "prod", "", "x y", "1", "prod-eu", "/srv/shop", "/", "/web", "web/", ".*", "web|db", "Web", " web", "web\n", "\t", " "}
+	dockerVals := []string{"web", "db", "prod", "", "x y", "1", "prod-eu", "/srv/shop", "/", "/web", "web/", ".*", "web|db", "Web", " web", "web\n", "\t", " ",
+		// a carriage return inside, next to the same text without it; quote characters at the ends
+		"we\rb", "web\r", "web\r\n", "`web`", "\"web\"", "`"}
 	usedID := map[string]bool{}
 	for i := 0; i < n; i++ {
 		ct := C02Ctr{ID: fmt.Sprintf("%x%02d", rapid.IntRange(0x100000, 0xffffff).Draw(t, "id"), i)}
@@ -457,6 +466,12 @@ func c02Gen(t *rapid.T) C02Case {
 		sort.Strings(keys) // draws must not depend on map order
 		for _, k := range keys {
 			v := ct.Labels[k]
+			if strings.Contains(string(v), "\r") && rapid.IntRange(0, 1).Draw(t, "exact-matcher-on-cr-value") == 0 {
+				// the value itself, carriage return and all, in a raw string as often as not
+				c.Sel = append(c.Sel, gen.Matcher{Label: model.KeyToLabel(k), Op: rapid.SampledFrom([]string{"=", "!="}).Draw(t, "cr-op"), Value: v})
+				c.RawSel = rapid.Bool().Draw(t, "cr-raw")
+				break
+			}
 			if strings.ContainsAny(string(v), "\n\t ") && rapid.IntRange(0, 1).Draw(t, "any-pattern-on-odd-value") == 0 {
 				c.Sel = append(c.Sel, gen.Matcher{Label: model.KeyToLabel(k), Op: rapid.SampledFrom([]string{"=~", "!~"}).Draw(t, "any-op"),
 					Value: gen.BS(rapid.SampledFrom([]string{".+", ".*", ".", "web.?", "\\S+", "[^x]+", ".+|"}).Draw(t, "any-pattern"))})
@@ -475,6 +490,9 @@ func c02Gen(t *rapid.T) C02Case {
 	}
 	span := rapid.SampledFrom([]int64{1, 999999999, 1e9, 1500000000, 60e9, 3600e9, 86400e9}).Draw(t, "span")
 	c.Params = model.Params{Start: start, End: start + span, Step: 1e9, Limit: -1}
+	if !c.RawSel {
+		c.RawSel = rapid.IntRange(0, 2).Draw(t, "raw-selector-values") == 0
+	}
 	c.Stage = rapid.SampledFrom([]string{"", "", "logfmt", "regexp", "label_format"}).Draw(t, "stage")
 	if rapid.IntRange(0, 3).Draw(t, "metric") == 0 {
 		c.Metric = true
